@@ -95,6 +95,14 @@ class Verdict:
             return
         self.violations.append({"clause": clause, "detail": detail, "deviation": deviation})
 
+    def _stratified(self, per):
+        seen, out = {}, []
+        for v in self.violations:
+            seen[v["clause"]] = seen.get(v["clause"], 0) + 1
+            if seen[v["clause"]] <= per:
+                out.append(v)
+        return out[:400]
+
     def finish(self, level, coverage, assumptions=None, extra=None):
         os.makedirs(EVIDENCE, exist_ok=True)
         os.makedirs(REPLAYS, exist_ok=True)
@@ -125,7 +133,7 @@ class Verdict:
             with open(rp, "w") as f:
                 json.dump(
                     {"property": self.prop, "tier": self.tier, "seed": seed(),
-                     "violations": self.violations[:200]},
+                     "violations": self._stratified(25)},
                     f, indent=1, default=str)
             ev["coverage"]["violation_samples"] = self.violations[:5]
             hist = {}
